@@ -123,7 +123,18 @@ fn run_server(cx: &mut CaseCx, case: &Value) {
               direct = guard(|| server.eval(&pp::Point::from(&blinded[..]), md, false).ok().map(|e| *e.output.as_bytes())).ok().flatten();
               if let (Some(k), Some(hp)) = (k_scalar, CompressedRistretto(blinded).decompress()) {
                 let mut leaf = [0u8; 32];
-                if server.verif_pprf().eval(&[md], &mut leaf).is_ok() {
+                // the ingredients are read from the export and the hook: use them only if they reproduce the
+                // PUBLIC key (k*G = base point, PRF(tag)*G = tag point) - otherwise the derivation changed
+                let pkb = server.get_public_key().serialize_to_bincode().unwrap_or_default();
+                let slot = (0..).map(|i| 40 + 33 * i).take_while(|&at| at + 33 <= pkb.len()).find(|&at| pkb[at] == md).map(|at| at + 1);
+                let g = curve25519_dalek::constants::RISTRETTO_BASEPOINT_POINT;
+                let ingredients_ok = server.verif_pprf().eval(&[md], &mut leaf).is_ok()
+                  && pkb.len() >= 40
+                  && (k * g).compress().to_bytes()[..] == pkb[..32]
+                  && slot.map(|at| (Scalar::from_bytes_mod_order(leaf) * g).compress().to_bytes()[..] == pkb[at..at + 32]).unwrap_or(false);
+                if !ingredients_ok {
+                  cx.count("formula_ingredients_unobservable", 1);
+                } else {
                   let want = ((k + Scalar::from_bytes_mod_order(leaf)).invert() * hp).compress().to_bytes();
                   cx.eval();
                   if direct != Some(want) {
